@@ -421,7 +421,8 @@ class ConstantDiagLinearOperator(DiagLinearOperator):
     def solve_triangular(
         self, rhs: torch.Tensor, upper: bool, left: bool = True, unitriangular: bool = False
     ) -> torch.Tensor:
-        return rhs / self.diag_values
+        # (a 1-D rhs is a vector; for a matrix rhs the constants must broadcast over rows AND columns)
+        return rhs / (self.diag_values if rhs.dim() == 1 else self.diag_values.unsqueeze(-1))
 
     def sqrt(self: Float[LinearOperator, "*batch M N"]) -> Float[LinearOperator, "*batch M N"]:
         """
